@@ -357,11 +357,19 @@ type liveCont struct {
 	host    reflect.Value // what the embedding Go code holds: *S, map, slice header, *[n]T; by-value struct/array: the original copy
 	byValue bool
 	snap    reflect.Value // by-value containers: what a Go callee received last
+	kept    *m16.Inner    // the pointer the Go function __bump received last and kept
 }
 
 func (c *liveCont) install(vm *otto.Otto) {
 	must(vm.Set("G", c.host.Interface()))
 	must(vm.Set("__snap", func(x interface{}) { c.snap = reflect.ValueOf(x) }))
+	// a Go function with a pointer parameter that mutates through it and keeps it
+	must(vm.Set("__bump", func(p *m16.Inner, k int) int {
+		c.kept = p
+		p.X += k
+		p.Y = "bumped"
+		return p.X
+	}))
 }
 
 func buildCont(spec contSpec) *liveCont {
@@ -481,6 +489,8 @@ func stepSrcOn(G string, s step) string {
 		return "(" + G + ".length = " + val + ")"
 	case "push":
 		return G + ".push(" + val + ")"
+	case "bump":
+		return "__bump(" + keySrc(G, s.Key) + ", " + val + ")"
 	case "pop":
 		return G + ".pop()"
 	case "shift":
@@ -558,7 +568,12 @@ func runHist(q request, resp *response) {
 	resp.Init = &init
 	for _, s := range q.Steps {
 		o := stepObs{}
-		if s.Op == "gomut" || s.Op == "godel" {
+		if s.Op == "viaptr" { // Go writes through the pointer it kept
+			if c.kept != nil {
+				c.kept.X = int(m16.Build(reflect.TypeOf(0), *s.Go).Int())
+			}
+			o.Res = `{"ok":"u"}`
+		} else if s.Op == "gomut" || s.Op == "godel" {
 			c.goMutate(s)
 			o.Res = `{"ok":"u"}`
 		} else {
